@@ -7,8 +7,9 @@
     abandoned at its next read and the node takes [scc_default]; a reader that is not marked
     gets that default as an ordinary value; completed nodes are memoised.
 
-    For programs of Normal queries over inputs with ARBITRARY reads (self loops, several
-    strongly connected components, conditional cycle edges - no rank), the first query on a
+    For programs of Normal, Firewall and Projection queries over inputs with ARBITRARY reads (self
+    loops, several strongly connected components, conditional cycle edges - no rank; a projection
+    may only read firewalls and projections, the engine panics otherwise), the first query on a
     fresh engine, with fuel at least [(number of declared nodes) * (depth of the deepest body + 2) + 1],
     answers the value [cyc_spec] gives, executes every node at most once and neither panics nor
     gets stuck - for every order oracle (no hypothesis on them). *)
@@ -40,14 +41,14 @@ Variable inp : inputs.
 Inductive CRead : list node -> node -> cst -> cres -> cst -> Prop :=
 | cr_input : forall stk n st v, nkind n = KInput -> input_get inp (nidx n) = Some v ->
     CRead stk n st (cfinish stk st v) st
-| cr_memo : forall stk n st v, nkind n = KNormal -> alookup (c_memo st) n = Some v ->
+| cr_memo : forall stk n st v, is_mexec_kind (nkind n) = true -> alookup (c_memo st) n = Some v ->
     CRead stk n st (cfinish stk st v) st
-| cr_cycle : forall stk n st, nkind n = KNormal -> alookup (c_memo st) n = None -> In n stk ->
+| cr_cycle : forall stk n st, is_mexec_kind (nkind n) = true -> alookup (c_memo st) n = None -> In n stk ->
     CRead stk n st CCyc (mkCst (c_memo st) (upto stk n ++ c_marked st))
-| cr_compute : forall stk n st e r st1 v, nkind n = KNormal -> alookup (c_memo st) n = None -> ~ In n stk ->
+| cr_compute : forall stk n st e r st1 v, is_mexec_kind (nkind n) = true -> alookup (c_memo st) n = None -> ~ In n stk ->
     alookup p n = Some e -> CEv (n :: stk) e st r st1 ->
-    v = (if nmem n (c_marked st1) then scc_default KNormal
-         else match r with CVal z => z | CCyc => scc_default KNormal end) ->
+    v = (if nmem n (c_marked st1) then scc_default (nkind n)
+         else match r with CVal z => z | CCyc => scc_default (nkind n) end) ->
     CRead stk n st (cfinish stk (mkCst ((n, v) :: c_memo st1) (c_marked st1)) v)
           (mkCst ((n, v) :: c_memo st1) (c_marked st1))
 with CEv : list node -> expr -> cst -> cres -> cst -> Prop :=
@@ -85,10 +86,14 @@ Theorem cyc_det : forall p inp,
   (forall stk ns acc st r st', CGroup p inp stk ns acc st r st' -> forall r2 st2, CGroup p inp stk ns acc st r2 st2 -> r = r2 /\ st' = st2).
 Proof.
   intros p inp. apply cyc_mutind.
-  - intros stk n st v Kn Hv r2 st2 H2. inversion H2; subst; try congruence. split; [congruence|reflexivity].
-  - intros stk n st v Kn Hv r2 st2 H2. inversion H2; subst; try congruence. split; [congruence|reflexivity].
-  - intros stk n st Kn Hm Hin r2 st2 H2. inversion H2; subst; try congruence; try contradiction. auto.
-  - intros stk n st e r st1 v Kn Hm Hin He Hev IH Hv r2 st2 H2. inversion H2; subst; try congruence; try contradiction.
+  - intros stk n st v Kn Hv r2 st2 H2. inversion H2; subst; try (rewrite Kn in *; discriminate). split; [congruence|reflexivity].
+  - intros stk n st v Kn Hv r2 st2 H2.
+    inversion H2; subst; try (match goal with H : nkind _ = KInput |- _ => rewrite H in *; discriminate end); try congruence.
+    split; [congruence|reflexivity].
+  - intros stk n st Kn Hm Hin r2 st2 H2.
+    inversion H2; subst; try (match goal with H : nkind _ = KInput |- _ => rewrite H in *; discriminate end); try congruence; try contradiction. auto.
+  - intros stk n st e r st1 v Kn Hm Hin He Hev IH Hv r2 st2 H2.
+    inversion H2; subst; try (match goal with H : nkind _ = KInput |- _ => rewrite H in *; discriminate end); try congruence; try contradiction.
     assert (e0 = e) by congruence. subst e0. clear Hev.
     match goal with H : CEv _ _ _ _ _ ?ra ?sa |- _ => destruct (IH ra sa H) as [<- <-] end. auto.
   - intros stk z st r2 st2 H2. inversion H2; subst; try discriminate. auto.
@@ -128,11 +133,15 @@ Proof.
   intros p inp root v1 v2 [s1 H1] [s2 H2]. destruct (proj1 (cyc_det p inp) _ _ _ _ _ H1 _ _ H2) as [K _]. inversion K. reflexivity.
 Qed.
 
-(** programs of Normal queries over inputs; every read targets an input or a declared query *)
+(** programs of Normal / Firewall / Projection queries over inputs; every read targets an input or
+    a declared query *)
 Record wf_cyc (p : program) : Prop := {
-  wfc_keys : forall n e, In (n, e) p -> nkind n = KNormal;
+  wfc_keys : forall n e, In (n, e) p -> is_mexec_kind (nkind n) = true;
   wfc_targets : forall n e d, In (n, e) p -> In d (expr_reads e) ->
-                  nkind d = KInput \/ (nkind d = KNormal /\ alookup p d <> None);
+                  nkind d = KInput \/ (is_mexec_kind (nkind d) = true /\ alookup p d <> None);
+  (* a projection reads firewalls and projections only (the engine panics otherwise) *)
+  wfc_proj : forall n e d, In (n, e) p -> nkind n = KProjection -> In d (expr_reads e) ->
+               is_fw_or_proj (nkind d) = true;
 }.
 Fixpoint edepth (e : expr) : nat :=
   match e with
@@ -191,6 +200,10 @@ Proof.
   destruct H as [H|H]; [inversion H; subst; lia|]. specialize (IH n e H). unfold max_depth in IH. lia.
 Qed.
 
+Lemma exec_kind_match : forall {A} k (x y z : A), is_mexec_kind k = true ->
+  match k with KExternal => x | KInput => y | _ => z end = z.
+Proof. intros A k x y z H. destruct k; try reflexivity; discriminate. Qed.
+
 (** the nodes still to be computed: declared, not memoised, not on the stack *)
 Definition unfin (st : cst) (stk : list node) (n : node) : bool :=
   match alookup (c_memo st) n with Some _ => false | None => negb (nmem n stk) end.
@@ -224,10 +237,15 @@ Section Sim.
 Variable p : program.
 Variable inp : inputs.
 Variables tord bord pord : state -> node -> list node -> list node.
-Hypothesis Hkeys : forall n e, alookup p n = Some e -> nkind n = KNormal.
+Hypothesis Hkeys : forall n e, alookup p n = Some e -> is_mexec_kind (nkind n) = true.
 Definition Target (d : node) : Prop :=
-  (nkind d = KInput /\ exists v, input_get inp (nidx d) = Some v) \/ (nkind d = KNormal /\ alookup p d <> None).
+  (nkind d = KInput /\ exists v, input_get inp (nidx d) = Some v) \/ (is_mexec_kind (nkind d) = true /\ alookup p d <> None).
 Hypothesis Htargets : forall n e d, alookup p n = Some e -> In d (expr_reads e) -> Target d.
+Hypothesis Hproj : forall n e d, alookup p n = Some e -> nkind n = KProjection -> In d (expr_reads e) ->
+  is_fw_or_proj (nkind d) = true.
+(** the read [d] is allowed to the reader [b] *)
+Definition ROk (b d : node) : Prop := nkind b = KProjection -> is_fw_or_proj (nkind d) = true.
+Definition COk (c : caller) (d : node) : Prop := match c with CQuery b _ _ _ => ROk b d | _ => True end.
 Variable D : nat.
 Hypothesis HD : forall n e, alookup p n = Some e -> (edepth e <= D)%nat.
 Notation C := (D + 2)%nat.
@@ -240,15 +258,15 @@ Notation meval := (eval_o p None tord bord pord).
     computed in this epoch; the stored queries are the memoised ones *)
 Record Sim (st : cst) (s : state) : Prop := {
   sim_ver : forall n i, get_info s n = Some i -> i_verified i = s_ts s;
-  sim_kind : forall n i, get_info s n = Some i -> nkind n = KInput \/ nkind n = KNormal;
+  sim_kind : forall n i, get_info s n = Some i -> nkind n = KInput \/ is_mexec_kind (nkind n) = true;
   sim_input : forall n v, nkind n = KInput -> input_get inp (nidx n) = Some v ->
                 exists i, get_info s n = Some i /\ i_value i = v;
   sim_memo1 : forall n v, alookup (c_memo st) n = Some v ->
-                nkind n = KNormal /\ exists i, get_info s n = Some i /\ i_value i = v;
-  sim_memo2 : forall n i, nkind n = KNormal -> get_info s n = Some i -> alookup (c_memo st) n = Some (i_value i);
+                is_mexec_kind (nkind n) = true /\ exists i, get_info s n = Some i /\ i_value i = v;
+  sim_memo2 : forall n i, is_mexec_kind (nkind n) = true -> get_info s n = Some i -> alookup (c_memo st) n = Some (i_value i);
 }.
 Definition StkInv (st : cst) (stk : list node) (s : state) : Prop :=
-  forall x, In x stk -> nkind x = KNormal /\ get_info s x = None /\ ~ In x (c_marked st).
+  forall x, In x stk -> is_mexec_kind (nkind x) = true /\ get_info s x = None /\ ~ In x (c_marked st).
 Definition MarkedDone (st : cst) (stk : list node) : Prop :=
   forall x, In x (c_marked st) -> In x stk \/ alookup (c_memo st) x <> None.
 Inductive QC : caller -> list node -> option frame -> Prop :=
@@ -279,7 +297,7 @@ Proof.
 Qed.
 
 (** after a completed step whose reader was not unwound, nothing on the stack is marked *)
-Lemma QPost_continue : forall stk st st' s' M, (forall x, In x stk -> nkind x = KNormal) ->
+Lemma QPost_continue : forall stk st st' s' M, (forall x, In x stk -> is_mexec_kind (nkind x) = true) ->
   QPost stk st st' s' M -> top_marked stk st' = false ->
   StkInv st' stk s' /\ MarkedDone st' stk /\ (forall x, In x stk -> ~ In x M).
 Proof.
@@ -323,13 +341,13 @@ Definition FrPost (c : caller) (fr' : option frame) (st' : cst) : Prop :=
   end.
 
 Definition SQ (f : nat) : Prop :=
-  forall stk c fr n s st, Sim st s -> StkInv st stk s -> MarkedDone st stk -> QC c stk fr -> Target n ->
+  forall stk c fr n s st, Sim st s -> StkInv st stk s -> MarkedDone st stk -> QC c stk fr -> Target n -> COk c n ->
     (todo p st stk * C + 1 <= f)%nat ->
     exists o fr' M s' r st',
       mquery f stk c fr n s = Ok (o, fr', M, s') /\ CRead p inp stk n st r st' /\ QPost stk st st' s' M /\
       RQ r o /\ top_marked stk st' = is_cyc r /\ FrPost c fr' st'.
 Definition cval (n : node) (st1 : cst) (r : cres) : Z :=
-  if nmem n (c_marked st1) then scc_default KNormal else match r with CVal z => z | CCyc => scc_default KNormal end.
+  if nmem n (c_marked st1) then scc_default (nkind n) else match r with CVal z => z | CCyc => scc_default (nkind n) end.
 Definition SX (f : nat) : Prop :=
   forall stk c n e s st, Sim st s -> StkInv st stk s -> MarkedDone st stk ->
     alookup p n = Some e -> get_info s n = None -> ~ In n stk ->
@@ -340,7 +358,7 @@ Definition SX (f : nat) : Prop :=
       exists i, get_info s' n = Some i /\ i_value i = cval n st1 r /\ i_verified i = s_ts s'.
 Definition SE (f : nat) : Prop :=
   forall b rest pd prev e fr s st, Sim st s -> StkInv st (b :: rest) s -> MarkedDone st (b :: rest) ->
-    fr_scc fr = false -> (forall d, In d (expr_reads e) -> Target d) ->
+    fr_scc fr = false -> (forall d, In d (expr_reads e) -> Target d /\ ROk b d) ->
     (edepth e + todo p st (b :: rest) * C + 1 <= f)%nat ->
     exists out fr' M s' r st',
       meval f (b :: rest) (CQuery b true pd prev) e fr s = Ok (out, fr', M, s') /\ CEv p inp (b :: rest) e st r st' /\
@@ -350,8 +368,8 @@ Definition SE (f : nat) : Prop :=
 Lemma SX_step : forall f, SE f -> SX (S f).
 Proof.
   intros f IHe. red. intros stk c n e s st HS HK HM He Hn Hns Hf. rewrite execute_S. cbv zeta.
-  assert (Kn : nkind n = KNormal) by (eapply Hkeys; eauto).
-  rewrite Kn. unfold body. rewrite He.
+  assert (Kn : is_mexec_kind (nkind n) = true) by (eapply Hkeys; eauto).
+  rewrite (exec_kind_match _ _ _ _ Kn). unfold body. rewrite He.
   set (s0 := set_log s (n :: s_log s)).
   assert (HS0 : Sim st s0) by (eapply Sim_same; [| |exact HS]; reflexivity).
   assert (Hmn : alookup (c_memo st) n = None).
@@ -360,7 +378,7 @@ Proof.
   { intros x [<-|Hx]; [|exact (HK x Hx)]. split; [exact Kn|]. split; [exact Hn|].
     intro K. destruct (HM _ K) as [K1|K1]; [contradiction|congruence]. }
   assert (HM0 : MarkedDone st (n :: stk)) by (intros x Hx; destruct (HM x Hx); [left; right; assumption|right; assumption]).
-  destruct (IHe n stk (x_pedantic c) (fx_prev s n) e empty_frame s0 st HS0 HK0 HM0 eq_refl (fun d Hd => Htargets n e d He Hd))
+  destruct (IHe n stk (x_pedantic c) (fx_prev s n) e empty_frame s0 st HS0 HK0 HM0 eq_refl (fun d Hd => conj (Htargets n e d He Hd) (fun K => Hproj n e d He K Hd)))
     as (out & fr1 & M & s1 & r & st1 & Ee & Hev & HP & Hre & Htm & Hfr).
   { pose proof (HD n e He). lia. }
   rewrite Ee. cbv beta iota.
@@ -373,7 +391,7 @@ Proof.
     - cbn [fr_mark_scc fr_scc]. symmetry. apply nmem_In. apply (Hm1 n (or_introl eq_refl)). apply nmem_In. exact EM.
     - exact Hfr. }
   assert (Hv : fx_value n out fr2 = cval n st1 r).
-  { unfold fx_value, cval. rewrite Hscc, Kn. destruct (nmem n (c_marked st1)); [reflexivity|].
+  { unfold fx_value, cval. rewrite Hscc. destruct (nmem n (c_marked st1)); [reflexivity|].
     destruct r; cbn in Hre; subst out; reflexivity. }
   rewrite Hv. set (v := cval n st1 r).
   exists M, (set_computed s1 n v fr2 false false), r, st1. split; [reflexivity|]. split; [exact Hev|].
@@ -389,7 +407,7 @@ Proof.
       * inversion Hi. reflexivity.
       * eapply (sim_ver _ _ HS1); eauto.
     + intros m i Hi. rewrite Hget in Hi. destruct (node_eqb_spec n m) as [<-|Hne]; [right; exact Kn|eapply (sim_kind _ _ HS1); eauto].
-    + intros m w K1 K2. rewrite Hget. destruct (node_eqb_spec n m) as [<-|Hne]; [congruence|eapply (sim_input _ _ HS1); eauto].
+    + intros m w K1 K2. rewrite Hget. destruct (node_eqb_spec n m) as [<-|Hne]; [rewrite K1 in Kn; discriminate|eapply (sim_input _ _ HS1); eauto].
     + intros m w K. cbn [c_memo alookup] in K. rewrite Hget. destruct (node_eqb_spec n m) as [<-|Hne].
       * inversion K. subst w. split; [exact Kn|]. eexists. split; [reflexivity|reflexivity].
       * eapply (sim_memo1 _ _ HS1); eauto.
@@ -410,13 +428,19 @@ Proof.
   intros c stk fr n s H. destruct (fq_caller_shape c n s) as [->|[b [prev [-> ->]]]]; [exact H|].
   inversion H; subst. constructor. assumption.
 Qed.
-Lemma QC_reg : forall c stk fr n st s, QC c stk fr -> StkInv st stk s ->
+Lemma QC_reg : forall c stk fr n st s, QC c stk fr -> StkInv st stk s -> COk c n ->
   mq_reg c fr n = Ok (fq_reg c fr n) /\ QC c stk (fq_reg c fr n).
 Proof.
-  intros c stk fr n st s H HK. inversion H; subst; cbn [mq_reg fq_reg]; [split; [reflexivity|constructor]|].
-  destruct (HK b (or_introl eq_refl)) as (Kb & _). rewrite Kb. cbn [kind_eqb andb]. split; [reflexivity|].
+  intros c stk fr n st s H HK Hok. inversion H; subst; cbn [mq_reg fq_reg]; [split; [reflexivity|constructor]|].
+  destruct (HK b (or_introl eq_refl)) as (Kb & _). cbn [COk] in Hok. unfold ROk in Hok.
+  assert (E1 : kind_eqb (nkind b) KExternal = false) by (destruct (nkind b); try reflexivity; discriminate).
+  assert (E2 : kind_eqb (nkind b) KProjection && negb (is_fw_or_proj (nkind n)) = false).
+  { destruct (kind_eqb (nkind b) KProjection) eqn:E; [|reflexivity]. apply kind_eqb_eq in E. rewrite (Hok E). reflexivity. }
+  rewrite E1, E2. split; [reflexivity|].
   constructor. rewrite (proj1 (fr_register_same x n)). assumption.
 Qed.
+Lemma COk_caller : forall c n s, COk c n -> COk (fq_caller c n s) n.
+Proof. intros c n s H. destruct (fq_caller_shape c n s) as [->|[b [prev [-> ->]]]]; exact H. Qed.
 (** a stored node: the fast path hits, the reader's frame keeps its flag *)
 Lemma QC_hit : forall c stk fr n s i, QC c stk fr -> get_info s n = Some i -> i_verified i = s_ts s ->
   exists fr2, fast_path s c fr n = (FHit (Some (i_value i)), fr2) /\ QC c stk fr2.
@@ -475,7 +499,7 @@ Proof.
   - (* an input *)
     destruct (sim_input _ _ HS n v Kn Hv) as (i & Hi & Hiv).
     fold (qbody f stk c' fr1 n s). apply (Hstored i v Hi Hiv).
-    + intro K. destruct (HK n K) as (K1 & _). congruence.
+    + intro K. destruct (HK n K) as (K1 & _). rewrite Kn in K1. discriminate.
     + apply cr_input; assumption.
   - destruct (get_info s n) as [i|] eqn:Hi.
     + (* memoised *)
@@ -531,9 +555,9 @@ Qed.
 
 Lemma SQ_step : forall f, SX f -> SQ (S f).
 Proof.
-  intros f IHx. red. intros stk c fr n s st HS HK HM Hc Ht Hf. rewrite query_for_S. cbv zeta.
+  intros f IHx. red. intros stk c fr n s st HS HK HM Hc Ht Hok Hf. rewrite query_for_S. cbv zeta.
   pose proof (QC_caller c stk fr n s Hc) as Hc'.
-  destruct (QC_reg (fq_caller c n s) stk fr n st s Hc' HK) as [Er Hc1]. rewrite Er. cbv beta iota.
+  destruct (QC_reg (fq_caller c n s) stk fr n st s Hc' HK (COk_caller c n s Hok)) as [Er Hc1]. rewrite Er. cbv beta iota.
   destruct (SQ_body f IHx stk (fq_caller c n s) (fq_reg (fq_caller c n s) fr n) n s st HS HK HM Hc1 Ht Hf)
     as (o & fr' & M & s' & r & st' & E & A1 & A2 & A3 & A4 & A5).
   exists o, fr', M, s', r, st'. split; [exact E|]. split; [exact A1|]. split; [exact A2|]. split; [exact A3|]. split; [exact A4|].
@@ -558,21 +582,21 @@ Proof.
   intros f IHq IHe.
   (* a read *)
   assert (Hread : forall b rest pd prev d fr s st, Sim st s -> StkInv st (b :: rest) s -> MarkedDone st (b :: rest) ->
-            fr_scc fr = false -> Target d -> (todo p st (b :: rest) * C + 1 <= f)%nat ->
+            fr_scc fr = false -> Target d /\ ROk b d -> (todo p st (b :: rest) * C + 1 <= f)%nat ->
             EOk b rest st (mread p tord bord pord f (b :: rest) (CQuery b true pd prev) d fr s)
                 (fun r st' => CRead p inp (b :: rest) d st r st')).
-  { intros b rest pd prev d fr s st HS HK HM Hfr Ht Hf. unfold mread.
-    destruct (IHq (b :: rest) (CQuery b true pd prev) (Some fr) d s st HS HK HM (qc_query b pd prev rest fr Hfr) Ht Hf)
+  { intros b rest pd prev d fr s st HS HK HM Hfr [Ht Hok] Hf. unfold mread.
+    destruct (IHq (b :: rest) (CQuery b true pd prev) (Some fr) d s st HS HK HM (qc_query b pd prev rest fr Hfr) Ht Hok Hf)
       as (o & fr' & M & s' & r & st' & E & A1 & A2 & A3 & A4 & (x' & -> & A5)).
     rewrite E. cbv beta iota zeta.
     destruct r as [v|]; cbn in A3; subst o.
     - exists (EVal v), x', M, s', (CVal v), st'. repeat (split; [first [reflexivity|assumption]|]). exact A5.
     - exists EUnwind, x', M, s', CCyc, st'. repeat (split; [first [reflexivity|assumption]|]). exact A5. }
-  assert (Hkn : forall b rest st s, StkInv st (b :: rest) s -> forall x, In x (b :: rest) -> nkind x = KNormal).
+  assert (Hkn : forall b rest st s, StkInv st (b :: rest) s -> forall x, In x (b :: rest) -> is_mexec_kind (nkind x) = true).
   { intros b rest st s HK x Hx. apply (HK x Hx). }
   assert (Hbin : forall b rest pd prev e a c0 op fr s st, expr_bin e = Some (a, c0, op) ->
             Sim st s -> StkInv st (b :: rest) s -> MarkedDone st (b :: rest) -> fr_scc fr = false ->
-            (forall d, In d (expr_reads a ++ expr_reads c0) -> Target d) ->
+            (forall d, In d (expr_reads a ++ expr_reads c0) -> Target d /\ ROk b d) ->
             (Nat.max (edepth a) (edepth c0) + todo p st (b :: rest) * C + 1 <= f)%nat ->
             EOk b rest st (mbin p tord bord pord f (b :: rest) (CQuery b true pd prev) a c0 op fr s)
                 (fun r st' => CEv p inp (b :: rest) e st r st')).
@@ -601,7 +625,7 @@ Proof.
   (* a group *)
   assert (Hgrp : forall b rest pd prev ns acc fr ms s st,
             Sim st s -> StkInv st (b :: rest) s -> MarkedDone st (b :: rest) -> fr_scc fr = false ->
-            (forall d, In d ns -> Target d) -> (todo p st (b :: rest) * C + 1 <= f)%nat ->
+            (forall d, In d ns -> Target d /\ ROk b d) -> (todo p st (b :: rest) * C + 1 <= f)%nat ->
             exists out fr' M s' r st',
               mgroup p tord bord pord f (b :: rest) (CQuery b true pd prev) ns acc fr ms s = Ok (out, fr', ms ++ M, s') /\
               CGroup p inp (b :: rest) ns acc st r st' /\ QPost (b :: rest) st st' s' M /\ RE r out /\
@@ -726,7 +750,7 @@ Definition model_cyclic_fresh_statement_f : Prop :=
 
 Theorem model_cyclic_fresh_f : model_cyclic_fresh_statement_f.
 Proof.
-  intros tord bord pord fuel pfuel p sets root rest r [Wk Wt] Hcov Hroot Hfuel Hr.
+  intros tord bord pord fuel pfuel p sets root rest r [Wk Wt Wp] Hcov Hroot Hfuel Hr.
   set (inp := inputs_after [OSession sets false]) in *.
   cbn [run_history_f] in Hr.
   destruct (step_f tord bord pord fuel pfuel p init_state (OSession sets false)) as [s1 x1] eqn:E1.
@@ -748,12 +772,14 @@ Proof.
       inversion E1; subst; try (apply Hsame; reflexivity).
     apply propagate_o_same in Ep. destruct Ep as (N1 & _ & N3 & _). apply Hsame; [exact N1|exact N3]. }
   (* the query *)
-  assert (Hkeys : forall n e, alookup p n = Some e -> nkind n = KNormal) by (intros n e He; eapply Wk; apply alookup_In; exact He).
+  assert (Hkeys : forall n e, alookup p n = Some e -> is_mexec_kind (nkind n) = true) by (intros n e He; eapply Wk; apply alookup_In; exact He).
   assert (Htargets : forall n e d, alookup p n = Some e -> In d (expr_reads e) -> Target p inp d).
   { intros n e d He Hd. apply alookup_In in He. destruct (Wt n e d He Hd) as [K|K]; [left|right; exact K].
     split; [exact K|]. destruct (input_get inp (nidx d)) as [v|] eqn:Ev; [eauto|]. exfalso. eapply Hcov; eauto. }
   assert (HD : forall n e, alookup p n = Some e -> (edepth e <= max_depth p)%nat).
   { intros n e He. eapply edepth_le_max. apply alookup_In. exact He. }
+  assert (Hproj : forall n e d, alookup p n = Some e -> nkind n = KProjection -> In d (expr_reads e) -> is_fw_or_proj (nkind d) = true).
+  { intros n e d He. apply (Wp n e d). apply alookup_In. exact He. }
   assert (HS : Sim inp cst0 (set_log s1 [])).
   { destruct HI1 as [A B]. split.
     - intros n i Hi. apply (A n i Hi).
@@ -761,12 +787,12 @@ Proof.
     - intros n v Kn Hv. destruct (B _ _ Hv) as (i & Hi & Hiv). exists i. split; [|exact Hiv].
       destruct n as [kd ix]. cbn in Kn. subst kd. exact Hi.
     - intros n v K. discriminate.
-    - intros n i Kn Hi. destruct (A n i Hi) as (K & _). congruence. }
-  assert (Kroot : nkind root = KNormal) by (destruct (alookup p root) as [e0|] eqn:E0; [eapply Hkeys; eauto|congruence]).
+    - intros n i Kn Hi. destruct (A n i Hi) as (K & _). rewrite K in Kn. discriminate. }
+  assert (Kroot : is_mexec_kind (nkind root) = true) by (destruct (alookup p root) as [e0|] eqn:E0; [eapply Hkeys; eauto|congruence]).
   unfold step_f in E2.
-  destruct (proj1 (cyc_all p inp tord bord pord Hkeys Htargets (max_depth p) HD fuel)
+  destruct (proj1 (cyc_all p inp tord bord pord Hkeys Htargets Hproj (max_depth p) HD fuel)
               [] CUser None root (set_log s1 []) cst0 HS (fun x Hx => match Hx with end)
-              (fun x Hx => match Hx with end) (qc_user) (or_intror (conj Kroot Hroot)))
+              (fun x Hx => match Hx with end) (qc_user) (or_intror (conj Kroot Hroot)) I)
     as (o & fr' & M & s' & r0 & st' & Eq & Hrd & _ & Hrq & Htm & _).
   { pose proof (todo_le_length p cst0 []) as Hl. unfold cyc_fuel in Hfuel.
     assert ((todo p cst0 [] * (max_depth p + 2) <= length p * (max_depth p + 2))%nat) by (apply Nat.mul_le_mono_r; exact Hl). lia. }
@@ -798,43 +824,52 @@ Definition model_cyclic_fresh_statement : Prop :=
 Theorem model_cyclic_fresh : model_cyclic_fresh_statement.
 Proof. intros p sets root rest r. exact (model_cyclic_fresh_op ord_id ord_id ord_id p sets root rest r). Qed.
 
-(** * example: a conditional cycle A <-> B (closed when I0 <> 0), a self loop S, and two queries
-    outside the cycles.  With I0 = 1: A = B = S = -1 (cycle defaults), R = A + S + I1 = 98,
-    T = B + A = -2; with I0 = 0 the edge B -> A is not taken: B = 5, A = 6, R = 105. *)
+(** * example: a conditional cycle A <-> B among Normal queries (closed when I0 <> 0), a self loop
+    S, a conditional cycle between the firewall F0 and the projection P0, and queries outside the
+    cycles.  With I0 = 1: A = B = S = -1, F0 = -2, P0 = -3 (the defaults of their kinds; F1 is not
+    even executed: P0 is unwound at its first read), R = A + S + I1 = 98, T = B + A = -2,
+    W = F0 + P0 + R = 93; with I0 = 0 no cycle is closed: B = 5, A = 6, R = 105, F0 = 7, F1 = 1,
+    P0 = 8, W = 120. *)
 Definition cex_I (k : N) := mkNode KInput k.
 Definition cex_Q (k : N) := mkNode KNormal k.
+Definition cex_F (k : N) := mkNode KFirewall k.
+Definition cex_P (k : N) := mkNode KProjection k.
 Definition cex_prog : program :=
   [ (cex_Q 0, EAdd (ERead (cex_Q 1)) (EConst 1));
     (cex_Q 1, EIf (ERead (cex_I 0)) (ERead (cex_Q 0)) (EConst 5));
     (cex_Q 2, EAdd (ERead (cex_Q 2)) (EConst 1));
     (cex_Q 3, EAdd (EAdd (ERead (cex_Q 0)) (ERead (cex_Q 2))) (ERead (cex_I 1)));
-    (cex_Q 4, EAdd (ERead (cex_Q 1)) (ERead (cex_Q 0))) ].
+    (cex_Q 4, EAdd (ERead (cex_Q 1)) (ERead (cex_Q 0)));
+    (cex_F 0, EIf (ERead (cex_I 0)) (ERead (cex_P 0)) (EConst 7));
+    (cex_P 0, EAdd (ERead (cex_F 0)) (ERead (cex_F 1)));
+    (cex_F 1, EMod (ERead (cex_I 1)) 3);
+    (cex_Q 5, EAdd (EAdd (ERead (cex_F 0)) (ERead (cex_P 0))) (ERead (cex_Q 3))) ].
+Ltac cex_cases H := repeat (destruct H as [H|H]; [inversion H; subst; clear H|]); try destruct H.
+Ltac cex_reads Hd := cbn in Hd; repeat (destruct Hd as [Hd|Hd]; [subst|]); try destruct Hd.
 Example cex_prog_wf : wf_cyc cex_prog.
 Proof.
   split.
-  - intros n e H. repeat (destruct H as [H|H]; [inversion H; subst; reflexivity|]). destruct H.
-  - intros n e d H Hd. repeat (destruct H as [H|H]; [inversion H; subst; clear H|]); try destruct H;
-      cbn in Hd; repeat (destruct Hd as [Hd|Hd]; [subst d|]); try destruct Hd;
-      (left; reflexivity) || (right; split; [reflexivity|discriminate]).
+  - intros n e H. cex_cases H; reflexivity.
+  - intros n e d H Hd. cex_cases H; cex_reads Hd; (left; reflexivity) || (right; split; [reflexivity|discriminate]).
+  - intros n e d H K Hd. cex_cases H; try discriminate K; cex_reads Hd; reflexivity.
 Qed.
 Example cex_run :
-  map r_out (run_history cex_prog init_state [OSession [(0%N, 1); (1%N, 100)] false; OQuery (cex_Q 3); OQuery (cex_Q 4)]) =
-    [RSession [SFresh; SFresh]; RValue 98; RValue (-2)] /\
-  map r_out (run_history cex_prog init_state [OSession [(0%N, 0); (1%N, 100)] false; OQuery (cex_Q 3)]) =
-    [RSession [SFresh; SFresh]; RValue 105] /\
+  map r_out (run_history cex_prog init_state [OSession [(0%N, 1); (1%N, 100)] false; OQuery (cex_Q 5); OQuery (cex_Q 4)]) =
+    [RSession [SFresh; SFresh]; RValue 93; RValue (-2)] /\
+  map r_out (run_history cex_prog init_state [OSession [(0%N, 0); (1%N, 100)] false; OQuery (cex_Q 5)]) =
+    [RSession [SFresh; SFresh]; RValue 120] /\
   (cyc_fuel cex_prog <= fuel0)%nat.
 Proof. split; [vm_compute; reflexivity|]. split; [vm_compute; reflexivity|vm_compute; lia]. Qed.
 (** the theorem applied: the specification gives these values *)
 Example cex_spec :
-  cyc_spec cex_prog (inputs_after [OSession [(0%N, 1); (1%N, 100)] false]) (cex_Q 3) 98 /\
-  cyc_spec cex_prog (inputs_after [OSession [(0%N, 0); (1%N, 100)] false]) (cex_Q 3) 105 /\
-  cyc_spec cex_prog (inputs_after [OSession [(0%N, 1); (1%N, 100)] false]) (cex_Q 4) (-2).
+  cyc_spec cex_prog (inputs_after [OSession [(0%N, 1); (1%N, 100)] false]) (cex_Q 5) 93 /\
+  cyc_spec cex_prog (inputs_after [OSession [(0%N, 0); (1%N, 100)] false]) (cex_Q 5) 120 /\
+  cyc_spec cex_prog (inputs_after [OSession [(0%N, 1); (1%N, 100)] false]) (cex_Q 4) (-2) /\
+  cyc_spec cex_prog (inputs_after [OSession [(0%N, 1); (1%N, 100)] false]) (cex_P 0) (-3).
 Proof.
   assert (Hcov : forall sets, (forall k, In k [0%N; 1%N] -> input_get (inputs_after [OSession sets false]) k <> None) ->
             inputs_cover cex_prog (inputs_after [OSession sets false])).
-  { intros sets Hs n e d H Hd Kd. apply Hs.
-    repeat (destruct H as [H|H]; [inversion H; subst; clear H|]); try destruct H;
-      cbn in Hd; repeat (destruct Hd as [Hd|Hd]; [subst d|]); try destruct Hd; try discriminate Kd; cbn; auto. }
+  { intros sets Hs n e d H Hd Kd. apply Hs. cex_cases H; cex_reads Hd; try discriminate Kd; cbn; auto. }
   assert (Hgo : forall sets root z,
             (forall k, In k [0%N; 1%N] -> input_get (inputs_after [OSession sets false]) k <> None) ->
             alookup cex_prog root <> None ->
@@ -843,7 +878,7 @@ Proof.
   { intros sets root z Hs Hr (r & Hn & Hz).
     destruct (model_cyclic_fresh cex_prog sets root [] r cex_prog_wf (Hcov sets Hs) Hr ltac:(vm_compute; lia) Hn) as (v & Hv & Ho & _).
     rewrite Hz in Ho. inversion Ho. subst. exact Hv. }
-  split; [|split]; apply Hgo;
+  repeat split; apply Hgo;
     try (intros k [<-|[<-|[]]]; vm_compute; discriminate); try discriminate;
     (eexists; split; [vm_compute; reflexivity|reflexivity]).
 Qed.
